@@ -110,3 +110,45 @@ func runC02Reentrant(x *X) {
 		x.Nontrivial(fmt.Sprint(in.plan, b.Key()))
 	})
 }
+
+// family "rows-copied-to-second-table": the rows of a finished table are added, in order, to a fresh second table
+// (filtering or copying a table by its AllRows()); the second table must count, order and address them like rows of
+// its own.
+func runC02SecondTable(x *X) {
+	depth := x.Pick(3, 4)
+	cfg := &BuildCfg{Counts: []int{0, 1, 2, 3}, MaxDetached: 1, AllowNewRowSized: true}
+	x.Explore("rows-copied-to-second-table", ExploreOpts{ShardDepth: 2, Bound: fmt.Sprintf("source table built by every sequence of <=%d operations; every row (separators as AddSeparator) then added to a fresh table, optionally with a header of 1 cell; full oracle on the second table", depth)}, func(c *Chooser) {
+		b := NewBuilder(cfg)
+		for step := 0; step < depth; step++ {
+			if b.Step(c, step > 0) == "" {
+				break
+			}
+			x.Transition(1)
+		}
+		dst := tabular.New()
+		b2 := &Builder{Cfg: cfg, T: dst}
+		if c.Bool() {
+			dst.AddHeaders("only")
+			b2.HasHeader, b2.Header, b2.MaxEver = true, []string{"only"}, 1
+		}
+		for _, r := range b.Rows {
+			if r.Sep {
+				dst.AddSeparator()
+				b2.Rows = append(b2.Rows, &RefRow{Sep: true, Attached: true})
+				continue
+			}
+			dst.AddRow(r.Ptr)
+			b2.Rows = append(b2.Rows, &RefRow{Cells: r.Cells, Ptr: r.Ptr, Attached: true})
+			if len(r.Cells) > b2.MaxEver {
+				b2.MaxEver = len(r.Cells)
+			}
+		}
+		c.Logf("dst := New(); every row of the source added to dst in order (%d rows)", len(b.Rows))
+		x.Transition(1)
+		c02Oracle(x, b2, "rows of another table added to this one")
+		x.State("second:" + b.Key())
+		if len(b.Rows) > 0 {
+			x.Nontrivial("second:" + b.Key())
+		}
+	})
+}
